@@ -96,6 +96,16 @@ def check_space(ctx, meshname, mesh, grid, spec, deep=True):
     sig0 = "%s/%s/sel=%s" % (kind, "inc=%s,trunc=%s" % (spec.get("inc"), spec.get("trunc")), "whole" if whole else "proper")
     v, e, d = mesh
     closed = R.is_closed_manifold(e)
+    if kind in SP.EDGE_KINDS and any(len([t for t, _ in lst if S[t]]) > 2 for lst in R.undirected_edges(e).values()):
+        # an edge with three or more neighbours inside the selection: no flux convention is documented (B.1) - outside the alphabet.
+        # Selections that contain at most two neighbours of every edge (manifold sub-surfaces of a junction grid) stay in.
+        ctx.declined += 1
+        return None
+    if kind in SP.EDGE_KINDS and spec.get("inc") and not spec.get("trunc") and not whole and any(
+            len(lst) > 2 for lst in R.undirected_edges(e).values()):
+        # untruncated boundary dofs on a grid with junction edges: which outside neighbours complete the functions is not documented
+        ctx.declined += 1
+        return None
     try:
         space = SP.make_space(grid, spec)
     except Exception as exc:  # noqa: BLE001
@@ -182,8 +192,10 @@ def check_space(ctx, meshname, mesh, grid, spec, deep=True):
     maxjump = 0.0
     for keyedge, lst in ue.items():
         nb = [(t, li) for t, li in lst if sup[t]]
-        if len(nb) < 2 or len(nb) != len(lst):
+        if len(nb) < 2:
             continue
+        if len(nb) != len(lst):
+            ctx.cover("junction_edges_with_partial_support", None)
         if kind in SP.EDGE_KINDS and len(nb) != 2:
             continue
         for (t1, li1), (t2, li2) in itertools.combinations(nb, 2):
@@ -201,9 +213,12 @@ def check_space(ctx, meshname, mesh, grid, spec, deep=True):
                     maxjump = max(maxjump, jump)
                 ctx.cover("conformity_edges_checked", None)
             elif kind in ("SNC", "RBC"):
-                if nm[t1] != nm[t2]:
+                a1, b1 = R.EDGE_LOCAL[li1]
+                a2, b2 = R.EDGE_LOCAL[li2]
+                opposite = int(se[a1, t1]) == int(se[b2, t2])  # consistently oriented neighbours traverse the edge in opposite directions
+                if opposite == (nm[t1] != nm[t2]):
                     ctx.cover("snc_interface_skipped", None)
-                    continue  # orientation flips across a swapped-normals interface: tangential trace not comparable
+                    continue  # effective orientation flips across this edge (swapped-normals interface or junction): n x f not comparable
                 tau = B.conormal(sv, se, t1, li1)[1]
                 for a, b_ in pairs:
                     jump = np.max(np.abs(tau @ F[t1][:, a, :] - tau @ F[t2][:, b_, :])) if ndof else 0.0
@@ -426,7 +441,8 @@ def plan(ctx):
     # (mesh, kinds, full element subsets?, swapped options, max subset size of domains (None = all))
     if quick:
         P += [("edge2", ALL_KINDS, True, [()]), ("bow2", ["DP0", "DP1", "P1", "RWG", "SNC"], True, [()]),
-              ("fan4", ALL_KINDS, True, [()]), ("book3", ["DP0", "DP1", "P1"], True, [()]),
+              ("fan4", ALL_KINDS, True, [()]), ("book3", ["DP0", "DP1", "P1", "RWG", "SNC"], True, [()]),
+              ("gluedtets", ["DP0", "DP1", "P1", "RWG", "SNC"], True, [()]),
               ("tet", ALL_KINDS, True, [(), (1,)]), ("octa", ALL_KINDS, False, [(), (2,)]),
               ("screen2x2", ALL_KINDS, False, [()]), ("cube12", ALL_KINDS, False, [()]),
               ("nested", ["P1", "RWG", "SNC", "BC", "RBC", "DUAL0"], False, [(5,)]), ("torus18", ALL_KINDS, False, [()])]
@@ -434,7 +450,7 @@ def plan(ctx):
         P += [("tri1", ["DP0", "DP1", "P1", "RWG", "SNC"], True, [()]), ("edge2", ALL_KINDS, True, [(), (1,)]),
               ("bow2", ["DP0", "DP1", "P1", "RWG", "SNC"], True, [(), (1,)]),
               ("fan4", ALL_KINDS, True, [(), (1,)]), ("fan5", ALL_KINDS, True, [()]),
-              ("book3", ["DP0", "DP1", "P1"], True, [()]),
+              ("book3", ["DP0", "DP1", "P1", "RWG", "SNC"], True, [()]), ("gluedtets", ["DP0", "DP1", "P1", "RWG", "SNC"], True, [()]),
               ("tet", ALL_KINDS, True, [(), (1,)]), ("octa", ALL_KINDS, True, [(), (2,)]),
               ("prism8", ALL_KINDS, True, [()]),
               ("screen2x2", ALL_KINDS, True, [()]), ("screen3x3", ALL_KINDS, False, [(), (1,)]),
@@ -470,6 +486,7 @@ def run(ctx):
     ctx.require({"P1", "RWG", "SNC"} <= set(ctx.cov.get("kinds_with_zero_multipliers", ())), "spaces with artificial zero-multiplier dofs present")
     ctx.require(len(ctx.cov.get("non_prefix_support", ())) > 0, "a support that is not a prefix of the element numbering")
     ctx.require(ctx.cov.get("conformity_edges_checked", 0) > 100, "conformity checked on interior edges")
+    ctx.require(ctx.cov.get("junction_edges_with_partial_support", 0) > 0, "junction edges (3 neighbours) with exactly two neighbours in the support present")
     ctx.assumptions += ["reference meaning of segments/include_boundary_dofs/truncate_at_segment_edge: DESIGN.md Appendix B.1",
                         "edge spaces on non-manifold edges and SNC/RBC traces across swapped-normal interfaces are declined"]
     return ctx.finish(
